@@ -188,6 +188,20 @@ def measureOk (s : SysDef Rat) (e : MeasureSpec) : Bool :=
     | some p, some q => decide (s.toSI.getD m zero = p / q ∧ s.toSIOffset.getD m zero = 0)
     | _, _ => false
 
+/-- the dimension string that denotes the documented composite (`a*b/c*d`; `1` for an empty
+numerator) -/
+def MeasureSpec.chars (e : MeasureSpec) : List Char :=
+  let f (ns : List String) : List Char := List.intercalate ['*'] (ns.map String.toList)
+  let num := if e.num.isEmpty then ['1'] else f e.num
+  if e.den.isEmpty then num else num ++ '/' :: f e.den
+
+/-- does `UnitSystem::parse` of that string give the measure-table entry (scale and offset)? -/
+def measureParseOk (s : SysDef Rat) (e : MeasureSpec) : Bool :=
+  let m := Gen.Units.measureNames.idxOf e.measure
+  match parseChars s e.chars with
+  | some d => decide (d.scale = some (s.toSI.getD m zero) ∧ d.offset = s.toSIOffset.getD m zero)
+  | none => false
+
 def sysByDeckName (n : String) : Option (SysDef Rat) :=
   (Gen.Units.systems Rat).find? (fun s => s.deckName == some n)
 
